@@ -11,6 +11,8 @@ TITLE = "Gradients pass straight through quantization and match the float linear
 RULES = {
     "C11.R1": "straight-through: backward of both quantizers and of every dequantizer returns the incoming gradient first and None for every other forward input",
     "C11.R2": "linear backward (label typing, input ranks 2..4): input/weight/bias gradients have the shapes of their primals, each guarded by needs_input_grad[i] of the matching forward parameter, returned in order; no constant factor",
+    "C11.R6": "the dynamic weight path stays in the autograd graph: no no_grad / set_grad_enabled / inference_mode context and no .detach() / .data around the quantization of self.weight in qweight, forward or qforward",
+    "C11.R7": "the linear backward contracts dequantized values: no raw payload (._data) enters a matmul there (unscaled codes accumulate beyond the float16 range and would be rounded with another scale order than the forward)",
     "C11.R3": "no staleness: qweight is a plain property that re-quantizes self.weight on every access while unfrozen",
     "C11.R4": "every torch.nn.Parameter built from a quantized tensor passes requires_grad=False",
     "C11.R5": "the linear dispatch passes (input, other, bias) in order to the autograd function",
@@ -39,6 +41,8 @@ def run(chk):
             ok = isinstance(e, ast.Call) and U(e.func) == "quantize_weight" and e.args and U(e.args[0]) == "self.weight"
             chk.require("C11.R3", f"{ci.mod.rel}:{p.end[2]}", ok, "unfrozen qweight quantizes the current self.weight on this very access", "QModuleMixin.qweight", "dynamic requantization", "an optimizer step is not reflected by the next forward")
     chk.floor("C11.R3", n, 1, "unfrozen qweight paths")
+    grad_path(chk, ci)
+    raw_payload_backward(chk)
     # R4
     n = 0
     for mi in repo.modules.values():
@@ -186,3 +190,76 @@ def linear_backward(chk):
 def _gen(msg: str) -> str:
     import re
     return re.sub(r"\([^()]*\)", "<T>", msg)[:90]
+
+
+GRAD_MODES = ("no_grad", "set_grad_enabled", "inference_mode", "enable_grad")
+
+
+def grad_path(chk, ci):
+    """C11.R6: nothing cuts the graph between self.weight and the quantized weight the forward uses."""
+    repo = chk.repo
+    n = 0
+    classes = [ci] + repo.subclasses(ci)
+    for c in classes:
+        for mname in ("qweight", "forward", "qforward"):
+            fn = c.own(mname)
+            if fn is None:
+                continue
+            qn = f"{c.name}.{mname}"
+            for p in paths_of(fn):
+                if p.end[0] == "raise":
+                    continue
+                n += 1
+                site = f"{c.mod.rel}:{p.end[2]}"
+                modes = [U(x[1]) for x in p.ctx if x and x[0] == "with" and any(g in U(x[1]) for g in GRAD_MODES)]
+                # contexts entered and left before the end of the path are recorded as effects
+                modes += [U(ef[1]) for ef in p.effects if ef[0] == "with" and any(g in U(ef[1]) for g in GRAD_MODES)]
+                frozen = path_facts(p).get("isinstance(self.weight, QTensor)") is True
+                chk.require("C11.R6", site, not modes or frozen, f"{qn}: no gradient-mode context on this path ({modes})", qn, "gradient mode changed on the weight path",
+                            "an unfrozen module whose forward runs under that context (e.g. eval() mode while fine-tuning): the quantized weight is detached, no gradient reaches the float weight, silently")
+                vals = [p.end[1]] + [x for ef in p.effects for x in ef if isinstance(x, ast.AST)]
+                cut = [U(nd)[:50] for v in vals if isinstance(v, ast.AST) for nd in ast.walk(v)
+                       if (isinstance(nd, ast.Call) and isinstance(nd.func, ast.Attribute) and nd.func.attr == "detach" and U(nd.func.value) == "self.weight")
+                       or (isinstance(nd, ast.Attribute) and nd.attr == "data" and U(nd.value) == "self.weight" and isinstance(nd.ctx, ast.Load))]
+                # reading type(self.weight.data) is not a use of the value
+                cut = [c_ for c_ in cut if c_]
+                uses = [c_ for c_ in cut]
+                if mname == "qweight" and not frozen:
+                    chk.require("C11.R6", site, not uses, f"{qn}: the float weight is used attached ({uses})", qn, "weight detached before quantization", "any training step: the weight receives no gradient")
+    chk.floor("C11.R6", n, 4, "weight-path return paths")
+
+
+def raw_payload_backward(chk):
+    repo = chk.repo
+    ci = repo.cls("QTensorLinear")
+    bwd = ci.own("backward")
+    from ..core import canon_function
+    fn = canon_function(bwd)
+    site = f"{ci.mod.rel}:{bwd.lineno}"
+    # names bound to expressions reading a raw payload (one level of local aliasing)
+    raw_names = set()
+    for st in ast.walk(fn):
+        if isinstance(st, ast.Assign) and any(isinstance(n, ast.Attribute) and n.attr == "_data" for n in ast.walk(st.value)):
+            for t in st.targets:
+                if isinstance(t, ast.Name):
+                    raw_names.add(t.id)
+
+    def is_raw(e):
+        return any((isinstance(n, ast.Attribute) and n.attr == "_data") or (isinstance(n, ast.Name) and n.id in raw_names) for n in ast.walk(e))
+
+    bad = []
+    n = 0
+    for nd in ast.walk(fn):
+        ops = None
+        if isinstance(nd, ast.BinOp) and isinstance(nd.op, ast.MatMult):
+            ops = [nd.left, nd.right]
+        elif isinstance(nd, ast.Call) and isinstance(nd.func, ast.Attribute) and nd.func.attr in ("mm", "bmm", "matmul", "einsum", "_int_mm"):
+            ops = list(nd.args) + ([nd.func.value] if not U(nd.func.value) == "torch" else [])
+        if ops is None:
+            continue
+        n += 1
+        if any(is_raw(o) for o in ops):
+            bad.append(U(nd)[:90])
+    chk.require("C11.R7", site, not bad, f"QTensorLinear.backward: {n} contraction(s), raw payloads entering one: {bad}", "QTensorLinear.backward", "raw payload in a backward contraction",
+                "a float16 module with quantized activations and a long input (hundreds of rows): the sum of unscaled codes exceeds 65504, the weight gradient is inf while the float twin's is finite")
+    chk.floor("C11.R7", n, 2, "contractions in the linear backward")
